@@ -72,7 +72,9 @@ EXHAUSTIVE = (
 
 VOL_CAP = 7158278  # documented upper bound of a script-command volume
 LCS = ["Water", "", "PowerSuck", "DMSO free dispense", "Water, wet contact", "Ethanol_70%", "LC-µL (1)",
-       " DMSO contact wet", "Water free dispense ", "  ", "\tTabbed"]
+       " DMSO contact wet", "Water free dispense ", "  ", "\tTabbed",
+       # free text may contain the words the commands themselves are made of
+       "Serum Aspirate slow", "Dispense_Z-max", "Wash Aspirate Dispense", "B;Aspirate"[2:] + " 2x"]
 ANY = {"__tip__": "Any"}
 _ID = re.compile(r"^([A-Z])([0-9]{2})$")
 _ROWS = "ABCDEFGHIJKLMNOPQRSTUVWXYZ"
